@@ -19,8 +19,8 @@ def chk(pid, level, text, note, ref, engine, technique=TECH):
 
 CHECKS = [
     chk("C01", "exploration",
-        "Seeded search over histories of a real 1-4 peer Raft cluster (ipfs-cluster's consensus/raft over go-libp2p-raft, hashicorp/raft, BoltDB and the file snapshot store) on a simulated network with partitions, resets, stalls, process kills (copy of the tmpfs data folder at the kill instant, restart on the copy), graceful stops and snapshot/truncation knobs that force snapshot installs onto non-empty replicas. A recording datastore under dsstate yields every replica's applied writes in order; oracles: all applied runs are contiguous stretches of one sequence (operations ordered by first application), every live replica serves the fold of the prefix it has applied, acknowledged operations were applied before the call returned and are in the sequence, OfflineState after a graceful stop equals the applied prefix, every applied change reached the local tracker with identical content, and a fresh write commits within 60 simulated seconds after the last fault. Sampling, not proof.",
-        "Disk model is process kill (no torn writes inside BoltDB); failed/timed-out calls may or may not have committed; how fast a lagging replica catches up is not judged; exact-trace replay of this heavy stack is >= 90% (one process per plan), oracles are schedule independent. Known finding: pins with origins do not survive the Raft log codec (reported, then explored with origins stripped).",
+        "Seeded search over histories of a real 1-4 peer Raft cluster (ipfs-cluster's consensus/raft over go-libp2p-raft, hashicorp/raft, BoltDB and the file snapshot store) on a simulated network with partitions, resets, stalls, process kills (copy of the tmpfs data folder at the kill instant, restart on the copy), graceful stops and snapshot/truncation knobs that force snapshot installs onto non-empty replicas. A recording datastore under dsstate yields every replica's applied writes in order; oracles: all applied runs are contiguous stretches of one sequence (operations ordered by first application), every live replica serves the fold of the prefix it has applied, acknowledged operations were applied before the call returned and are in the sequence, OfflineState after a graceful stop equals the applied prefix, every applied change reached the local tracker with identical content, and a fresh write commits within 120 simulated seconds after the last fault. Sampling, not proof.",
+        "Disk model is process kill (no torn writes inside BoltDB); failed/timed-out calls may or may not have committed; how fast a lagging replica catches up is not judged; exact-trace replay of this heavy stack is >= 90% (one process per plan), oracles are schedule independent. Known finding: pins with origins do not survive the Raft log codec (reported, then explored with origins stripped). Progress is not demanded while hashicorp/raft v1.1.1 is in its snapshot-install loop (DESIGN 0.5), and the final wait is cut short there. A plan that uses more real time than its budget on the machine at hand is ended at a step boundary and reported as abandoned in the evidence (plans_abandoned_wall_budget), not as trouble (DESIGN 0.3 F26).",
         "DESIGN.md §6 C01", "raftsim"),
     chk("C02", "exploration",
         "Seeded search over histories of 1-4 real CRDT replicas (consensus/crdt over go-ds-crdt, ipfs-lite bitswap, signed gossipsub and the dual DHT on a simulated network): LogPin/LogUnpin with batching disabled / size-triggered / age-triggered, bursts that put pin and unpin of one CID into one batch window and overflow the queue, partitions, latency skews, datastore write failures placed in the middle of a batch, trust changes. Oracles after a clean reconnection, a final marker write per replica (evidence that updates were exchanged) and a long quiet period: per-CID submission order on the submitting replica (later failed calls may or may not have landed), queue-full operations have no effect anywhere, mutually trusting replicas that hold each other's marker hold equal pinsets, no value appears that nobody submitted, updates of a never-trusted publisher are absent, and the last tracker call per CID agrees with the pinset. Sampling, not proof.",
@@ -64,7 +64,7 @@ CHECKS = [
         "DESIGN.md §6 C14", "raftsim"),
     chk("C17", "exploration",
         "Whole cluster peers (real Cluster + real consensus/raft + hashicorp/raft + BoltDB on tmpfs + pstoremgr + gorpc + DHT on mocknet) go through generated membership histories: bootstrap of 1..4 peers, Join / PeerAdd of staging peers through leaders and followers, PeerRemove of leader / follower / self / absent peers, leave on shutdown, graceful restart, crash + restart on a copy of the folders, partitions, interleaved with (partly overlapping) Pin/Unpin. Oracles: after every successful change, with every link up, all remaining members report the same peerset and it is the one the acknowledged changes lead to (failed calls are resolved by what the members report); add of a present / removal of an absent peer changes nothing and does not fail; the last peer cannot be removed; a joiner lists, when Join returns and at the instant its Ready channel closes, every pin acknowledged before its addition began (register model with overlapping and unacknowledged writes); a ready, connected peer that learns of its removal stops itself within the watch interval plus the shutdown bound and its Raft folder is gone; with re-pinning every pin it held keeps its minimum number of holders among those who stay; Shutdown always returns; a peer that gives up on consensus ends up shut down; after the last fault everything converges and a fresh pin goes through. A panic on a goroutine of the code under test is a violation (process crash). Sampling, not proof.",
-        "Tracker, IPFS connector, informer and the monitor transport are models (the monitor keeps a valid metric for every slot and filters by the peer's own consensus peerset). Stream close follows yamux/mplex rather than mocknet (simkit/lenient.go, DESIGN.md §5). The stop-and-clean clause is judged only for peers that were ready, connected and actually received their removal (Raft sends it once, best effort).",
+        "Tracker, IPFS connector, informer and the monitor transport are models (the monitor keeps a valid metric for every slot and filters by the peer's own consensus peerset). Stream close follows yamux/mplex rather than mocknet (simkit/lenient.go, DESIGN.md §5). The stop-and-clean clause is judged only for peers that were ready, connected and actually received their removal (Raft sends it once, best effort). Once hashicorp/raft's snapshot-install loop has been seen in a plan, termination, progress and agreement are not judged in it and the final waits are not waited out. A plan that uses more real time than its budget on the machine at hand is ended at a step boundary and reported as abandoned in the evidence, not as trouble (DESIGN 0.3 F26).",
         "DESIGN.md §6 C17", "membersim"),
     chk("C18", "exploration",
         "A binary built with the race detector runs one of five worlds around the structures the statement names (pin tracker + operation table; metrics store, checker and pubsub monitor; a whole Cluster facade with the real disk and numpin informers; the informers alone; the CRDT component with its batching queue) while 2-5 caller goroutines execute plan-given sequences of public calls that mostly land in the same instants, and in most plans one caller shuts the component down while the others go on. Violations: a race report, a panic on a goroutine of the code under test, a Shutdown or a caller stuck for minutes of simulated time, an empty or duplicated entry in a returned status / metric / alert / pinset list. The race detector judges by happens-before over the executed accesses, so a report does not depend on the interleaving that happened to run; which accesses execute is decided by the seeded plan. One plan per process (a plan runs exactly as its replay does). Sampling, not proof.",
